@@ -22,6 +22,7 @@ import (
 	"errors"
 	"strings"
 	"sync"
+	"sync/atomic"
 	"syscall"
 	"time"
 )
@@ -41,6 +42,7 @@ type server struct {
 	opts        *options
 	onQuit      func(err error)
 	connections sync.Map // key=fd, value=connection
+	closed      int32    // set by Close: the listener is gone
 }
 
 // Run this server.
@@ -60,6 +62,7 @@ func (s *server) Run() (err error) {
 
 // Close this server with deadline.
 func (s *server) Close(ctx context.Context) error {
+	atomic.StoreInt32(&s.closed, 1)
 	s.operator.Control(PollDetach)
 	s.ln.Close()
 
@@ -123,6 +126,10 @@ func (s *server) OnRead(p Poll) error {
 			for {
 				if retryTimeIndex > 0 {
 					time.Sleep(retryTimes[retryTimeIndex] * time.Millisecond)
+				}
+				if atomic.LoadInt32(&s.closed) != 0 {
+					// the server was shut down: its listener fd is closed and the number may belong to others
+					return
 				}
 				conn, err := s.ln.Accept()
 				if err == nil {
